@@ -30,11 +30,12 @@ def stream_env(ip):
             return None
         if name == "wait_closed":
             ctx.ghost.events.append(("wait_closed", o))
-            if o.state.get("maybe_lost") and ctx.fork(2) == 1:
+            which = ctx.fork(3) if o.state.get("maybe_lost") else 0
+            if which:
                 # E6': when the peer reset the connection (an operation failed on it), asyncio hands the transport's error to
                 # whoever awaits wait_closed(): ConnectionResetError / BrokenPipeError, on every call
                 ctx.used_models.add("E6': wait_closed() of a connection the peer reset raises ConnectionResetError/BrokenPipeError (OSError)")
-                raise PyExc(ExcVal("ConnectionResetError", ("connection lost",)))
+                raise PyExc(ExcVal("ConnectionResetError" if which == 1 else "BrokenPipeError", ("connection lost",)))
             return None
         if name == "is_closing":
             return bool(o.state.get("closed"))
